@@ -216,6 +216,8 @@ def run_check(prop: str, tier: str, seed: int, only_spec: dict | None = None) ->
             )
     if unreached:
         inconclusive_reasons.append(f"reach floors not met: {unreached}")
+    if counters.get("monitor_error", 0):
+        inconclusive_reasons.append(f"a monitor's own condition raised {counters['monitor_error']} time(s) (see 'skipped' in the evidence): the machinery failed, no verdict")
     if len(sigs) < 2 and only_spec is None:
         inconclusive_reasons.append("fewer than 2 distinct non-trivial cases observed")
 
